@@ -1,11 +1,14 @@
 #!/bin/sh
-# tools/confirm_seed.sh <worktree>: confirm a seeded change: demo fails with it, passes without, pinned suite passes with it
+# tools/confirm_seed.sh <worktree>: confirm a seeded change: demo fails with it, passes without, pinned suite
+# passes with it.  No git stash (stashes are shared between the worktrees of a repository, concurrent
+# confirmations would swap changes): the change is saved as a patch, reverted and re-applied.
 wt="$1"
 cd "$wt" || exit 9
 git diff --quiet -- ioos_qc && { echo "$wt: no change applied"; exit 9; }
+git diff -- ioos_qc > .confirm.patch
 PYTHONPATH="$wt" /venv/bin/python demo.py >/dev/null 2>&1; with=$?
-git stash -q -- ioos_qc
+git checkout -- ioos_qc
 PYTHONPATH="$wt" /venv/bin/python demo.py >/dev/null 2>&1; without=$?
-git stash pop -q
+git apply .confirm.patch || { echo "$wt: could not re-apply the change"; exit 9; }
 PYTHONPATH="$wt" /venv/bin/python -m pytest -q -p no:cacheprovider --timeout=900 tests 2>&1 | tail -1 > .pytest_tail.txt
 echo "$wt demo_with_change=$with demo_without=$without pytest: $(cat .pytest_tail.txt)"
